@@ -7,10 +7,10 @@ git apply "$d/patch.diff" || { echo "patch does not apply"; exit 2; }
 trap 'git -C /repo checkout -- . ' EXIT
 cd /verif
 for p in "$@"; do
-  out=$(VERIF_BUDGET_S=${BUDGET:-60} ./check $p quick 2>&1 | grep -v "^NOTE" | tail -6)
+  out=$(VERIF_BUDGET_S=${BUDGET:-60} ./check $p quick 2>&1 | tail -12)
   rc=$(echo "$out" | grep -c "^VIOLATION property=$p")
   echo "== $p: $( [ $rc -gt 0 ] && echo CAUGHT || echo missed )"
-  echo "$out" | grep "^violation:\|^VIOLATION\|HARNESS" | cut -c1-400
+  echo "$out" | grep "^violation:\|^VIOLATION\|HARNESS\|^NOTE" | cut -c1-400
 done
 # evidence files were rewritten by runs on a changed tree: restore them
 git -C /verif checkout -- evidence 2>/dev/null
